@@ -729,6 +729,7 @@ func (e *endpoint) watchPoll(ctx context.Context, pollingInterval uint32, nonRec
 		}
 
 		// Grab the scan lock.
+		e.verifGate("poll-before-lock")
 		e.lockScanLock(context.Background())
 
 		// Disable the use of the existing scan results.
@@ -763,6 +764,7 @@ func (e *endpoint) watchPoll(ctx context.Context, pollingInterval uint32, nonRec
 		snapshot := e.snapshot
 
 		// Release the scan lock.
+		e.verifGate("poll-after-scan")
 		e.unlockScanLock()
 
 		// Check for modifications.
@@ -1336,6 +1338,7 @@ func (e *endpoint) Transition(ctx context.Context, transitions []*core.Change) (
 	// because these aren't updated concurrently and thus don't fall under the
 	// scope of the scan lock.
 	e.unlockScanLock()
+	e.verifGate("transition-after-unlock")
 	results, problems, stagerMissingFiles := core.Transition(
 		ctx,
 		e.root,
@@ -1348,6 +1351,7 @@ func (e *endpoint) Transition(ctx context.Context, transitions []*core.Change) (
 		e.lastReturnedScanSnapshotDecomposesUnicode,
 		e.stager,
 	)
+	e.verifGate("transition-before-relock")
 	e.lockScanLock(context.Background())
 
 	// Determine whether or not the transition made any changes on disk.
